@@ -8,7 +8,7 @@ for f in sorted(glob.glob("/tmp/campaign/*.json")):
     name = os.path.basename(f)[:-5]
     rec = json.load(open(f))
     wt = rec.get("worktree")
-    x = name.split("-")[1]
+    x = name.split("-")[1][0]
     src = f"{wt}/mutants/{x}"
     if not os.path.exists(f"{src}/patch.diff"):
         continue
